@@ -49,7 +49,9 @@ def _mutations(lines, field_edits, structural=None):
         if m and m.group(1) not in kinds:
             kinds.append(m.group(1))
     for k in kinds:
-        if k in ("ExecOk", "ExecErr", "WarmOk", "WarmErr", "Reset", "Begin"):   # (optional steps of their machines / trace separators)
+        # (optional steps of their machines / trace separators: an API history in which no source fails to compile or none is
+        #  executed is a legal history; Begin / End / Reset delimit traces)
+        if k in ("ExecOk", "ExecErr", "WarmOk", "WarmErr", "CompileErr", "Reset", "Begin", "End"):
             continue
         yield "hook removed: no %s events" % k, [l for l in lines if '"ev":"%s"' % k not in l]
     for i in range(mid, n - 1):
@@ -90,7 +92,7 @@ def main(argv):
             ("CacheLock logged as CacheUnlock", r'"ev":"CacheLock"', '"ev":"CacheUnlock"'),
             ("template identity changed", r'"id":([1-9]\d*)', lambda m: '"id":%d' % (int(m.group(1)) + 7)),
             ("set of an event changed", r'"set":"s1"', '"set":"s2"'),
-        ])
+        ], structural=r'"ev":"CacheLock"')      # (observation events are idempotent: the structural corruptions take a state-changing one)
     if "lexer" in want:
         tf = os.path.join(BUILD, "selftest_lex.ndjson")
         run_harness(pvh, ["lex-trace", tf, os.path.join(REPO, "template_tests", "if.tpl"), os.path.join(REPO, "template_tests", "macro.tpl")], timeout=600)
@@ -100,7 +102,7 @@ def main(argv):
             ("column of a token off by one", r'"col":(\d+)', lambda m: '"col":%d' % (int(m.group(1)) + 1)),
             ("line of a token off by one", r'"line":(\d+)', lambda m: '"line":%d' % (int(m.group(1)) + 1)),
             ("type of a token changed", r'"typ":"Identifier"', '"typ":"String"'),
-        ])
+        ], structural=r'"ev":"Tok"')
     if "api" in want:
         tf = os.path.join(BUILD, "selftest_api.ndjson")
         progs = "\n".join(json.dumps({"src": list(s.encode())}) for s in
